@@ -637,8 +637,13 @@ def run_k(ctx, n_valid: int, n_malformed: int, tag="c04"):
         raw = (not er["ok"]) and er["err"][0] in ("RawDuckDB", "RawPython")
         key = ("raw:" + er["err"][1] if raw else "wrong-result") + ":" + f.get("kind", "?") + (":using" if f.get("using") else "") + \
               ":" + "+".join(sorted(k for k in c["hist"] if k.startswith("clause:")))
-        if ctx._known_key(key) is None and dis <= 4:
+        if ctx._known_key(key) is None and dis <= 2:
+            budget = [30]          # probes (engine run + one coq_eval each): shrinking is bounded, the case stays valid when it stops early
+
             def still_bad(cc):
+                if budget[0] <= 0:
+                    return False
+                budget[0] -= 1
                 mm = eval_model([cc], tag + "_shr")[0]
                 return exprk.compare(run_engine(cc), mm) is not None
             try:
